@@ -676,6 +676,17 @@ def immut_ops(obj):
         ops.append(("model-roundtrip", lambda o: AnnotationCollectionModel.Schema().load(o.to_dict()).to_annotation_collection(), []))
         ops.append(("query_by_position", lambda o: o.query_by_position(1, 13, completely_within=False), []))
         ops.append(("to_gff", lambda o: list(o.to_gff()), []))
+    # conversion from the dictionary form: the dictionary handed to from_dict is an operand like any other (also the
+    # nested parent description an AnnotationCollection exports on request)
+    if hasattr(obj, "to_dict") and hasattr(type(obj), "from_dict"):
+        D = _try(lambda: obj.to_dict())
+        if isinstance(D, dict):
+            ops.append(("from_dict(D)", lambda o, D=D: type(o).from_dict(D), [D]))
+        if isinstance(obj, AnnotationCollection):
+            DP = _try(lambda: obj.to_dict(export_parent=True))
+            if isinstance(DP, dict):
+                ops.append(("from_dict(DP)", lambda o, DP=DP: AnnotationCollection.from_dict(DP), [DP]))
+                ops.append(("from_dict(DP)-twice", lambda o, DP=DP: (AnnotationCollection.from_dict(DP), AnnotationCollection.from_dict(DP)), [DP]))
     if isinstance(obj, (GeneInterval, FeatureIntervalCollection)):
         ops.append(("to_gff", lambda o: list(o.to_gff()), []))
         ops.append(("to_gff-twice", lambda o: (list(o.to_gff()), list(o.to_gff())), []))
